@@ -6,6 +6,8 @@ Import ListNotations.
 Open Scope string_scope.
 
 Record wobs := mkWobs {
+  r0_err : bool;                         (* RemoveSpec of the name before anything was written under it returned an error *)
+  r0_changed : list string;              (* anything that first RemoveSpec changed (files deleted / changed, directories created / deleted) *)
   w_err : bool;                          (* WriteSpec returned an error *)
   w_changed : list string;               (* files created or modified by WriteSpec (sorted) *)
   w_deleted : list string;               (* files deleted by WriteSpec *)
@@ -16,9 +18,11 @@ Record wobs := mkWobs {
   r_deleted : list string;               (* files deleted by RemoveSpec *)
   r_other : list string;                 (* anything else RemoveSpec changed *)
   r2_err : bool;                         (* RemoveSpec of the now missing name returned an error *)
-  w_again : list string                  (* files created by writing the same Spec under the same name once more (no refresh
+  w_again : list string;                 (* files created by writing the same Spec under the same name once more (no refresh
                                             since the removal), with the content of the first write; then an overwrite of
                                             foreign content at that path restores that content too (else "<foreign>" is listed) *)
+  r_link : list string                   (* everything RemoveSpec changed when the name was a symbolic link to a file outside the
+                                            Spec directories ("<error>" is listed if it returned an error) *)
 }.
 
 Inductive case16 :=
@@ -44,17 +48,20 @@ Definition corr16 (c : case16) : bool :=
   | CWrite dirs name ndev o =>
       match write_path dirs name, remove_path dirs name, highest_dir dirs with
       | Some p, Some rp, Some (_, prio) =>
+          negb (r0_err o) && ls_eqb (r0_changed o) [] &&
           negb (w_err o) && ls_eqb (w_changed o) [p] && ls_eqb (w_deleted o) [] &&
           Bool.eqb (w_json o) (String.eqb (ext p) ".json") &&
           list_eqb (pair_eqb String.eqb Z.eqb) (w_resolved o) (repeat (p, Z.of_nat prio) ndev) &&
-          negb (r_err o) && ls_eqb (r_deleted o) [rp] && ls_eqb (r_other o) [] && negb (r2_err o) && ls_eqb (w_again o) [p]
+          negb (r_err o) && ls_eqb (r_deleted o) [rp] && ls_eqb (r_other o) [] && negb (r2_err o) && ls_eqb (w_again o) [p] &&
+          ls_eqb (r_link o) [rp]
       | _, _, _ => w_err o
       end
   end.
 
 (* the property on the observed effects: exactly one file, directly inside the (cleaned) last directory,
    named name or name.yaml; nothing else touched; devices resolve to it at the highest priority;
-   removal deletes exactly that file; removing a missing name succeeds *)
+   removal deletes exactly that file (also when it is a link: the link, not what it points to); removing a missing name
+   succeeds and changes nothing (also before the directory exists) *)
 Definition ancestor_or_self (d top : string) : bool := has_prefix (d ++ "/") (top ++ "/").
 Definition oracle16 (c : case16) : bool :=
   match c with
@@ -71,13 +78,16 @@ Definition oracle16 (c : case16) : bool :=
       | last :: _ =>
           let top := clean last in
           let fname := if has_suffix ".json" name || has_suffix ".yaml" name then name else name ++ ".yaml" in
-          let f := top ++ "/" ++ fname in
+          (* directly inside the directory (the working directory is spelled "." and its entries are spelled without it) *)
+          let f := if String.eqb top "." then fname else top ++ "/" ++ fname in
           single_component name &&
+          negb (r0_err o) && ls_eqb (r0_changed o) [] &&
           negb (w_err o) && ls_eqb (w_changed o) [f] && ls_eqb (w_deleted o) [] &&
           forallb (fun d => ancestor_or_self d top) (w_dirs o) &&
           Bool.eqb (w_json o) (has_suffix ".json" name) &&
           list_eqb (pair_eqb String.eqb Z.eqb) (w_resolved o) (repeat (f, Z.of_nat (length dirs - 1)) ndev) &&
-          negb (r_err o) && ls_eqb (r_deleted o) [f] && ls_eqb (r_other o) [] && negb (r2_err o) && ls_eqb (w_again o) [f]
+          negb (r_err o) && ls_eqb (r_deleted o) [f] && ls_eqb (r_other o) [] && negb (r2_err o) && ls_eqb (w_again o) [f] &&
+          ls_eqb (r_link o) [f]
       end
   end.
 
